@@ -6,6 +6,7 @@ import common as C
 import diaglib as D
 import res_lib as R
 import res_run
+import root_run
 
 
 def hashseed_runs(programs, seeds):
@@ -95,8 +96,8 @@ def main(tier: str) -> int:
     prop = "C05"
     T = C.Timer()
     V = C.Verdict(prop)
-    proof_files = ["proofs/ResProofs.v", "props/C05.v"]
-    build = C.coq_build(res_run.MODEL_FILES + proof_files)
+    proof_files = ["proofs/ResProofs.v", "proofs/RootProofs.v", "props/C05.v"]
+    build = C.coq_build(res_run.MODEL_FILES + root_run.MODEL_FILES + proof_files)
     if any(t in build.failed for t in res_run.MODEL_FILES):
         raise SystemExit("internal error: model/spec files do not compile:\n" + build.log)
     n_obl, n_done, broken = C.obligations_from(build, proof_files)
@@ -107,13 +108,17 @@ def main(tier: str) -> int:
     new, known, known_static = [], [], []
     n_variants = 0
     for g in res["groups"]:
-        base_label, base, _ = g["variants"][0] if g["variants"] else (None, None, None)
+        base_label, base, _, base_ir = g["variants"][0] if g["variants"] else (None, None, None, None)
         if base is None:
             continue
         own_fns = [k for k in base]
         diffs = []
-        for label, r, r2 in g["variants"]:
+        ir_diffs = []         # the analysis phase itself (IR before result generation) depends on the variant
+        for label, r, r2, ir0 in g["variants"]:
             n_variants += 1
+            for fn in own_fns:
+                if ir0.get(fn) != base_ir.get(fn):
+                    ir_diffs.append({"function": fn, "variant_a": base_label, "variant_b": label, "ir_a": base_ir.get(fn), "ir_b": ir0.get(fn)})
             if r is None:
                 continue
             for fn in own_fns:
@@ -122,14 +127,18 @@ def main(tier: str) -> int:
             if r2 is not None and r2 != r:
                 diffs.append({"function": "*", "variant_a": label, "variant_b": label + " (second generation in the same process)",
                               "results_a": r, "results_b": r2})
-        if not diffs:
+        if not diffs and not ir_diffs:
             continue
-        codes = [code_of.get((g["program"], lab), 0) for lab, _, _ in g["variants"]]
+        codes = [code_of.get((g["program"], lab), 0) for lab, _, _, _ in g["variants"]]
         predicted = not any(c & 1 for c in codes)          # the model reproduces every variant exactly
         in_class = any(c & 32 for c in codes) or any(c & 16 for c in codes)
-        info = {"program": g["program"], "definitions": g["definitions"], "first_difference": diffs[0], "differences": len(diffs)}
+        info = {"program": g["program"], "definitions": g["definitions"], "first_difference": (ir_diffs or diffs)[0], "differences": len(diffs) + len(ir_diffs)}
         if predicted and _calls_static_method(g["definitions"]):
             known_static.append(info)
+        elif ir_diffs:
+            # KF_C05_1 is about result generation (the fold mutating shared IR): it cannot explain an IR that differs
+            # before any result was generated
+            new.append({**info, "phase": "the per-function IR of the analysis phase (before result generation) already differs"})
         else:
             (known if (predicted and in_class) else new).append(info)
 
@@ -144,13 +153,19 @@ def main(tier: str) -> int:
     hs_new = [h for h in hs_diff if h not in hs_known]
 
     mm_bad, mm_runs = multi_module_runs(tier)
+    # the analysis phase: root contexts of modules that meet the premises of C05_root_context_independent_of_statement_order
+    root = root_run.run(tier)
+    order_bad = [o for o in root["order_runs"] if not o["same"]]
+    for o in order_bad[:3]:
+        V.violation({"property": prop, "why": "the root context (which symbol each module-level name has) changed when the top-level statements were reordered, "
+                                               "in a module that binds every name once and deletes nothing", **o})
     for m in mm_bad[:3]:
         V.violation({"property": prop, **m})
     for m in new[:4]:
         V.violation({"property": prop, "why": "results differ between definition orders / with unrelated definitions / on a second generation, outside the listed finding class or beyond what the model predicts", **m})
     for h in hs_new[:3]:
         V.violation({"property": prop, "why": "`-o results` bytes differ between PYTHONHASHSEED values", **h})
-    if not new and not hs_new and not mm_bad:
+    if not new and not hs_new and not mm_bad and not order_bad:
         if corr_fail:
             V.violation({"property": prop, "broken": "correspondence suite res (model/Results.v vs generate_results_from_ir)",
                          "disagreements": len(corr_fail), "first": corr_fail[0]}, failing_input=False)
@@ -171,7 +186,7 @@ def main(tier: str) -> int:
                 "a second generation in the same process; a sample + the corpus witness as real subprocesses under several PYTHONHASHSEED values; non-trivial = distinct programs",
         "programs": len(res["groups"]), "traces_validated_against_impl": len(res["cases"]), "disagreements_checked": len(corr_fail),
         "order_dependent_programs_known_class": len(known), "order_dependent_static_method_known_class": len(known_static), "order_dependent_programs_new": len(new),
-        "multi_module_runs": mm_runs, "multi_module_differences": len(mm_bad), "hashseed_programs": len(hs), "hashseed_dependent_known": len(hs_known), "hashseed_dependent_new": len(hs_new),
+        "root_context_reorderings": len(root["order_runs"]), "root_context_reorderings_differing": len(order_bad), "multi_module_runs": mm_runs, "multi_module_differences": len(mm_bad), "hashseed_programs": len(hs), "hashseed_dependent_known": len(hs_known), "hashseed_dependent_new": len(hs_new),
         "print_assumptions": pa, "broken_obligation_files": broken, "samples": [known[0] if known else {"program": res["groups"][0]["program"]}]},
         wall_s=T.s, assumptions=["single-file programs for the permutation suite; four fixed multi-module scenarios (imported callee called twice, same-named private helpers, ignored imported callee, diamond) under reorderings x hash seeds"], violations=len(V.violations))
     return V.finish()
